@@ -12,6 +12,14 @@
 #include <djinterop/djinterop.hpp>
 #include <djinterop/engine/engine.hpp>
 
+// `read::beatgrid_markers` is a non-inline function defined in its header, so the library's own track_impl.o
+// already defines that symbol: the copy compiled here gets another name (no header included before this
+// point after the #define mentions the identifier).
+#include <djinterop/engine/v2/beat_data_blob.hpp>
+#include <djinterop/performance_data.hpp>
+#define beatgrid_markers djv_cv_beatgrid_markers
+#include "djinterop/engine/v2/convert_beatgrid.hpp"
+#undef beatgrid_markers
 #include "djinterop/engine/v2/convert_hot_cues.hpp"
 #include "djinterop/engine/v2/convert_loops.hpp"
 #include "djinterop/engine/v2/convert_track.hpp"
@@ -325,3 +333,47 @@ DJV_CMD(cv_read_loops, "cv.read_loops")
 }
 DJV_CMD(cv_empty_cue, "cv.empty_cue") { return wr_cue(ev2::quick_cue_blob::empty()); }
 DJV_CMD(cv_empty_loop, "cv.empty_loop") { return wr_loop(ev2::loop_blob::empty()); }
+
+// ---- convert_beatgrid.hpp (markers: `<index> <offset>`; blobs: `<offset> <beat_number> <number_of_beats> <unknown>`)
+namespace
+{
+ev2::beat_grid_marker_blob rd_marker_blob(cursor& c)
+{
+    ev2::beat_grid_marker_blob m{};
+    m.sample_offset = c.f();
+    m.beat_number = c.i64();
+    m.number_of_beats = c.i32();
+    m.unknown_value_1 = c.i32();
+    return m;
+}
+}  // namespace
+DJV_CMD(cv_read_beatgrid_marker, "cv.read_beatgrid_marker")
+{
+    cursor c{a, 1};
+    auto m = rd_marker_blob(c);
+    c.done();
+    auto r = cvr::beatgrid_marker(m);
+    return std::to_string(r.index) + " " + fd(r.sample_offset);
+}
+DJV_CMD(cv_read_beatgrid_markers, "cv.read_beatgrid_markers")
+{
+    cursor c{a, 1};
+    auto g = rd_v2_grid(c);
+    c.done();
+    return wr_grid(cvr::djv_cv_beatgrid_markers(g));
+}
+DJV_CMD(cv_write_beatgrid_markers, "cv.write_beatgrid_markers")
+{
+    cursor c{a, 1};
+    auto g = rd_grid(c);
+    c.done();
+    return wr_v2_grid(cvw::djv_cv_beatgrid_markers(g));
+}
+DJV_CMD(cv_write_beatgrid, "cv.write_beatgrid")
+{
+    cursor c{a, 1};
+    auto g = rd_grid(c);
+    c.done();
+    auto f = cvw::beatgrid(g);
+    return u8s(f.is_beatgrid_set) + " " + wr_v2_grid(f.default_beat_grid) + " " + wr_v2_grid(f.adjusted_beat_grid);
+}
